@@ -68,6 +68,26 @@ var specs = map[string]*propSpec{
 		guard{"alloc.c06.must_fail_free", 1000, "failing-Free classes must be exercised"}, guard{"alloc.op.free.below-pool", 200, "below-pool class"}),
 	"C07": allocSpec("Non-trivial (C07) = history containing a hinted allocation on a free block; distinct by (pool, seed).",
 		guard{"alloc.c07.hinted_free_block", 1000, "hints naming a free block"}),
+	"C02": {
+		level: "exploration",
+		rule: "each history fixes a range (2..256 addresses, also 4097 in the thorough tier; ranges ending at 255.255.255.255 and starting at x.x.x.0), a lease time and an alphabet of N+3 clients (hardware-address lengths 0..16, arbitrary-byte hostnames); DISCOVER/REQUEST datagrams go as wire bytes through HandleMsg4 into the plugin obtained from Plugin.Setup4 on a real sqlite file, with restarts on the same file (wider range / higher lease) at PRNG-chosen points; every reply is decided by a lease model (in range, injective, sticky, lease time, drop iff full). Concurrent bursts are checked with porcupine under -race. Non-trivial = history that served >= 2 clients and reached exhaustion or crossed a restart; distinct by (range, lease, seed)",
+		assumptions: assume("the code has no lease expiry/GC, so 'first given' is over the whole history", "single-address ranges are refused by the plugin's setup and are not driven"),
+		runs: []runSpec{
+			{engine: "range", qBatches: 32, qCases: 8, tBatches: 192, tCases: 16},
+			{engine: "rangeconc", race: true, parallel: 8, qBatches: 16, qCases: 10, tBatches: 64, tCases: 30},
+		},
+		guards: []guard{{"range.unknown_served_while_free", 100, "unknown clients served while addresses are free"}, {"range.unknown_dropped_when_full", 20, "exhaustion reached"},
+			{"range.known_served_when_full", 20, "bound clients served when full"}, {"range.restarts", 20, "restarts"}, {"rangeconc.overlapping_pairs", 500, "real overlap"}},
+	},
+	"C03": {
+		level: "fault_enumeration",
+		rule: "crash points = every prefix of every request history: after every reply the database file (and any journal) is copied and reopened by a fresh plugin instance (Setup4 must succeed), leases4 rows are compared with the model (none lost/unknown/duplicated, stored expiry >= floor(t_before_call+lease)-1s) and known clients are probed for their address; thorough adds SIGKILL of a child process at acknowledged points. Hardware-address lengths 0..16, hostnames of arbitrary bytes incl. numeric-looking text. Non-trivial = crash point at which the database held >= 1 binding written by the handler; distinct by (history, step)",
+		assumptions: assume("crash points are process kills and file copies at quiescent points, not power failures (fsync honesty is not observable)", "hostname round-trip through sqlite NUMERIC affinity is recorded but is not part of the property"),
+		runs: []runSpec{
+			{engine: "range", qBatches: 32, qCases: 4, tBatches: 128, tCases: 12},
+		},
+		guards: []guard{{"range.crash_points", 1500, "crash points"}, {"range.restarts", 10, "restarts"}},
+	},
 	"C20": {
 		level: "exploration",
 		rule: "each evaluation draws p in 0..128 (boundary values over-weighted), a /p-aligned base and an address x>=base from bit-pattern classes, and n from 2^k-1/2^k/2^k+1/random; " +
